@@ -22,7 +22,7 @@ def plan(tier, seed):
 
 def floors(tier):
     return {"evaluations": 1500, "strata": ["lower-only", "upper-only", "both-bounds-fit", "both-bounds-unfit", "packing-exact-fit", "packing-slack-fit", "packing-barely-unfit", "packing-gross-unfit", "deeper-layer"],
-            "events": {"Force.compute": 1000, "removeOverlap": 1500}, "distinct_nontrivial": 300}
+            "events": {"Force.compute": 1000, "layers_observed": 1500}, "distinct_nontrivial": 300}
 
 
 def worker(ctx, shard):
